@@ -37,9 +37,12 @@ enum Kind {
     MpmcRecv,
     Join,
     Select,
+    /// the single-receiver channel (may::sync::spsc): its own park, not registered with the cancel
+    /// data - a cancel takes effect when the receiver enters recv or is woken by a send
+    SpscRecv,
 }
 
-const KINDS: [Kind; 12] = [
+const KINDS: [Kind; 13] = [
     Kind::Park,
     Kind::Sleep,
     Kind::MutexLock,
@@ -49,6 +52,7 @@ const KINDS: [Kind; 12] = [
     Kind::RwWrite,
     Kind::FlagWait,
     Kind::MpscRecv,
+    Kind::SpscRecv,
     Kind::MpmcRecv,
     Kind::Join,
     Kind::Select,
@@ -112,7 +116,40 @@ fn observe_cancel(who: &str, w: &World, is_target: bool) {
 
 /// the blocking operation under test, executed by the target and (for shared primitives) by
 /// the bystanders
-fn blocking_op(kind: Kind, w: &Arc<World>, who: &str, mpsc_rx: Option<&mpsc::Receiver<u32>>, join_me: Option<coroutine::JoinHandle<u32>>) {
+enum Rx {
+    Mpsc(mpsc::Receiver<u32>),
+    Spsc(may::sync::spsc::Receiver<u32>),
+}
+enum Tx {
+    Mpsc(mpsc::Sender<u32>),
+    Spsc(may::sync::spsc::Sender<u32>),
+}
+impl Rx {
+    fn recv(&self) {
+        match self {
+            Rx::Mpsc(r) => {
+                let _ = r.recv();
+            }
+            Rx::Spsc(r) => {
+                let _ = r.recv();
+            }
+        }
+    }
+}
+impl Tx {
+    fn send(&self, v: u32) {
+        match self {
+            Tx::Mpsc(t) => {
+                let _ = t.send(v);
+            }
+            Tx::Spsc(t) => {
+                let _ = t.send(v);
+            }
+        }
+    }
+}
+
+fn blocking_op(kind: Kind, w: &Arc<World>, who: &str, mpsc_rx: Option<&Rx>, join_me: Option<coroutine::JoinHandle<u32>>) {
     match kind {
         Kind::Park => coroutine::park(),
         Kind::Sleep => coroutine::sleep(Duration::from_millis(2)),
@@ -152,9 +189,7 @@ fn blocking_op(kind: Kind, w: &Arc<World>, who: &str, mpsc_rx: Option<&mpsc::Rec
             *g = v + 1;
         }
         Kind::FlagWait => w.flag.wait(),
-        Kind::MpscRecv => {
-            let _ = mpsc_rx.expect("mpsc receiver").recv();
-        }
+        Kind::MpscRecv | Kind::SpscRecv => mpsc_rx.expect("receiver").recv(),
         Kind::MpmcRecv => {
             let _ = w.mpmc_rx.recv();
         }
@@ -191,7 +226,13 @@ pub fn run(seed: u64, mut ov: impl FnMut(&mut engine::Cfg)) -> ! {
     engine::set_vt_limit(engine::now() + 200_000_000);
 
     let (mpmc_tx, mpmc_rx) = mpmc::channel::<u32>();
-    let (mpsc_tx, mpsc_rx) = mpsc::channel::<u32>();
+    let (mpsc_tx, mpsc_rx) = if p.kind == Kind::SpscRecv {
+        let (t, r) = may::sync::spsc::channel::<u32>();
+        (Tx::Spsc(t), Rx::Spsc(r))
+    } else {
+        let (t, r) = mpsc::channel::<u32>();
+        (Tx::Mpsc(t), Rx::Mpsc(r))
+    };
     let w = Arc::new(World {
         m: Mutex::new(0),
         m_occ: AtomicU32::new(0),
@@ -207,8 +248,10 @@ pub fn run(seed: u64, mut ov: impl FnMut(&mut engine::Cfg)) -> ! {
     });
     let kind = p.kind;
     // who else uses the primitive: kinds that are private to the target have no bystanders
-    let shared = !matches!(kind, Kind::Park | Kind::Sleep | Kind::MpscRecv | Kind::Join);
-    let never = p.never_release && matches!(kind, Kind::Park | Kind::SemWait | Kind::CondWait | Kind::FlagWait | Kind::MpscRecv | Kind::MpmcRecv);
+    let shared = !matches!(kind, Kind::Park | Kind::Sleep | Kind::MpscRecv | Kind::SpscRecv | Kind::Join);
+    let never = p.never_release && matches!(kind, Kind::Park | Kind::SemWait | Kind::CondWait | Kind::FlagWait | Kind::MpscRecv | Kind::MpmcRecv)
+        // (a receiver blocked in spsc recv is only reached by the cancel when a send wakes it)
+        && kind != Kind::SpscRecv;
     let n_by = if shared && !never { p.bystanders.len() } else { 0 };
     // a blocker that keeps the lock kinds busy until the release
     let gate_held = Arc::new(AtomicBool::new(false));
@@ -328,9 +371,7 @@ pub fn run(seed: u64, mut ov: impl FnMut(&mut engine::Cfg)) -> ! {
                     }
                 }
                 Kind::FlagWait => w2.flag.fire(),
-                Kind::MpscRecv => {
-                    let _ = mpsc_tx.send(1);
-                }
+                Kind::MpscRecv | Kind::SpscRecv => mpsc_tx.send(1),
                 Kind::MpmcRecv | Kind::Select => {
                     for k in 0..n_events {
                         let _ = mpmc_tx.send(k as u32);
